@@ -733,7 +733,7 @@ theorem frac_le_one_iff {d x l : Rat} (hl : 0 < l) : ¬ (1 < (d - x) / l) ↔ d 
 
 /-- **segments at distance `d` from the root = the segments that contain the point at path length `d`** -/
 theorem segmentsAtDistance_spec {m : Morph} {r : Nat → Nat} {root : Nat} (wt : WfTree m r root) (len : Nat → Rat)
-    (hlen : ∀ i ∈ ids m, 0 ≤ len i) (fuel : Nat) (hf : ∀ i ∈ ids m, r i < fuel) (d : Rat) :
+    (hlen : ∀ i ∈ ids m, 0 ≤ len i) (fuel : Nat) (hf : ∀ i ∈ ids m, r i < fuel) (d : Rat) (hd : 0 ≤ d) :
     ∃ res, segmentsAtDistance m len fuel d root = some res ∧
       ∀ i fr, (i, fr) ∈ res ↔ AtDistanceS m len d i fr := by
   obtain ⟨l, hl, hmem⟩ := allDistances_spec wt len fuel hf
@@ -742,11 +742,19 @@ theorem segmentsAtDistance_spec {m : Morph} {r : Nat → Nat} {root : Nat} (wt :
   rw [hl]
   refine ⟨_, rfl, ?_⟩
   intro i fr
-  simp only [List.mem_filterMap, List.mem_filter, decide_eq_true_eq]
+  simp only [List.mem_filterMap, List.mem_filter, Bool.or_eq_true, beq_iff_eq, decide_eq_true_eq]
   unfold AtDistanceS
   constructor
   · rintro ⟨⟨a, x⟩, ⟨hax, hxd⟩, hstep⟩
     obtain ⟨hai, hS⟩ := (hmem a x).1 hax
+    have hxd' : x ≤ d := by
+      rcases hxd with h | h
+      · simp only at h
+        subst h
+        obtain ⟨s, _, hfs, _, hps⟩ := wt.root_seg
+        rw [ToProxS.unique hS (ToProxS.root hfs hps)]
+        exact hd
+      · exact h
     unfold atDistStep at hstep
     simp only at hstep
     split at hstep
@@ -762,9 +770,9 @@ theorem segmentsAtDistance_spec {m : Morph} {r : Nat → Nat} {root : Nat} (wt :
         have hpos : 0 < len a := by
           have := hlen a hai
           grind
-        exact ⟨hai, hne, x, hS, hxd, (frac_le_one_iff hpos).1 hfr, rfl⟩
+        exact ⟨hai, hne, x, hS, hxd', (frac_le_one_iff hpos).1 hfr, rfl⟩
   · rintro ⟨hi, hne, x, hS, hxd, hdx, rfl⟩
-    refine ⟨(i, x), ⟨(hmem i x).2 ⟨hi, hS⟩, hxd⟩, ?_⟩
+    refine ⟨(i, x), ⟨(hmem i x).2 ⟨hi, hS⟩, Or.inr hxd⟩, ?_⟩
     have hpos : 0 < len i := by
       have := hlen i hi
       grind
